@@ -83,3 +83,6 @@ func CheckWALReadable(n *PNode) string {
 	}
 	return ""
 }
+
+// WALFile is the path of the node's WAL head file.
+func (p *Persist) WALFile() string { return p.walFile() }
